@@ -15,7 +15,7 @@ ASSUMPTIONS = ["default active_timeout (20 s) on both sides, so that the passive
 RULE = ("a client and a server exchange packets of all modes, one side calls disconnect() (or disconnect_now()) with data still queued / in flight; data, ack, disconnect and "
         "disconnect-ack frames are lost, duplicated and reordered, incl. total blackout after the call and zero-length Reliable packets; oracle: every Reliable packet submitted "
         "before disconnect() is in the peer's event list before its Disconnect; from the first transmission of the disconnect request both sides reach a terminal event within "
-        "22 s (+ one step); nothing is delivered afterwards (C08 monitor). Non-trivial: a disconnect request was transmitted.")
+        "22 s (+ one step); nothing is delivered afterwards (C08 monitor). Non-trivial: a disconnect request was transmitted. Plus an allocation-edge family: both endpoints accept m fragments, a short Reliable packet and one that fits the rest by bytes but not by fragments, then disconnect().")
 
 BUDGET_NS = 22_000 * 10**6
 
